@@ -7,7 +7,14 @@ case (scheduled) = {"wants": [k_0..k_{n-1}], "sched": ["R" | "u" | t ...], "rais
       captured, and every raising call must be logged exactly once)
       "R" = the reactor thread takes its next atomic step, "u" = the poll call returns spuriously,
       t   = producer thread t takes its next atomic step (append, or wakeUp)
+      optional "kw": [[t, n, name] ...]  call n of thread t is issued with an extra keyword argument called `name`
+      ("delay", "callable": callFromThread(f, *a, **kw) promises f(*a, **kw) whatever the keywords are called);
+      optional "cancels": [[t, n] ...]   that call cancels every pending timer (reactor.getDelayedCalls()), which
+      must not touch calls issued through callFromThread
 case (stress)    = {"stress": "select"|"poll"|"epoll"|"asyncio", "threads": n, "calls": m, "seed": s}
+case (two reactors) = {"stress2": worker kind, "calls": m}: a worker reactor idles in a secondary thread; code
+      running inside a second reactor in the main thread hands m calls to worker.callFromThread; each must run
+      promptly, once, in order, in the worker's thread
 
 Instrumentation is done from here only: reactor.threadCallQueue is replaced by a list subclass whose append /
 __len__ / __delitem__ stop at a scheduler point, the waker by an object with a flag (SelectReactor._wakerFactory is
@@ -173,6 +180,8 @@ def _make_queue(sched, state):
 def _impl_sched(case) -> str:
     wants = case["wants"]
     raises = {tuple(x) for x in case.get("raises", [])}
+    kwnames = {(t, n): name for t, n, name in case.get("kw", [])}
+    cancels = {tuple(x) for x in case.get("cancels", [])}
     _quiet_log()
     del _logged[:]
     r = _get_reactor()
@@ -187,12 +196,19 @@ def _impl_sched(case) -> str:
 
     ncalls = sum(wants)
 
-    def fn(t, n):
+    timer = r.callLater(3600, lambda: None)     # an application timer for the cancelling calls to find
+
+    def fn(t, n, **kw):
         sched.point("x")
         sched.seg.append(f"x{t}.{n}")
         executed.append((t, n, threading.get_ident()))
         if len(executed) > 5 * ncalls + 50:
             stop.set()              # calls are being re-run without end: let the reactor thread leave its loop
+        if kw != ({kwnames[(t, n)]: 0.25} if (t, n) in kwnames else {}):
+            errors.append(f"wrong-kwargs-{t}.{n}")
+        if (t, n) in cancels:
+            for dc in r.getDelayedCalls():
+                dc.cancel()
         if (t, n) in raises:
             raise ThreadCallBoom(f"{t}.{n}")
 
@@ -205,7 +221,10 @@ def _impl_sched(case) -> str:
         register(t)
         try:
             for n in range(wants[t]):
-                r.callFromThread(fn, t, n)
+                if (t, n) in kwnames:
+                    r.callFromThread(fn, t, n, **{kwnames[(t, n)]: 0.25})
+                else:
+                    r.callFromThread(fn, t, n)
                 sched.seg.append("!")          # callFromThread has returned (not part of the model's observation)
         except BaseException as e:     # noqa
             errors.append(repr(e))
@@ -300,6 +319,9 @@ def _impl_sched(case) -> str:
         stop.set()
         r.waker.sched = None
         r.threadCallQueue = []
+        for dc in r.getDelayedCalls():
+            dc.cancel()
+        r.runUntilCurrent()         # drop the cancelled timers
     alive = [th for th in threads + [rt] if th.is_alive()]
     # end-to-end reading after the free run
     want = [(t, n) for t in range(len(wants)) for n in range(wants[t])]
@@ -341,8 +363,12 @@ logged = []
 globalLogBeginner.beginLoggingTo([logged.append], redirectStandardIO=False, discardBuffer=True)
 class Boom(Exception): pass
 got, rid, res = [], [None], {}
-def fn(t, n):
+def fn(t, n, **kw):
     got.append((t, n, threading.get_ident()))
+    if kw != ({"delay": 0.25} if n % 11 == 5 else {}): res["kwargs"] = True
+    if n % 97 == 13:
+        for dc in reactor.getDelayedCalls():
+            if dc is not wdc[0]: dc.cancel()
     if len(got) > 3 * nthreads * ncalls + 100 and "runaway" not in res:
         res["runaway"] = True
         reactor.stop()
@@ -351,7 +377,10 @@ def fn(t, n):
 def producer(t):
     rng = random.Random(seed * 100 + t)
     for n in range(ncalls):
-        reactor.callFromThread(fn, t, n)
+        if n % 11 == 5:
+            reactor.callFromThread(fn, t, n, delay=0.25)
+        else:
+            reactor.callFromThread(fn, t, n)
         if rng.random() < 0.02:
             time.sleep(rng.random() * 0.002)
 def idle_probe():
@@ -369,12 +398,14 @@ def start():
     for th in ths: th.start()
     threading.Thread(target=idle_probe, daemon=True).start()
 reactor.callWhenRunning(start)
+wdc = [reactor.callLater(3600, lambda: None)]
 wd = threading.Timer(60.0, lambda: (res.setdefault("hang", True), reactor.callFromThread(reactor.stop)))
 wd.daemon = True; wd.start()
 reactor.run()
 bad = "ok"
 nboom = sum(1 for e in logged if "log_failure" in e and isinstance(e["log_failure"].value, Boom))
 if "runaway" in res: bad = "ran-%d-of-%d" % (len(got), nthreads * ncalls)
+elif "kwargs" in res: bad = "wrong-kwargs"
 elif "hang" in res and "latency" not in res: bad = "idle-call-never-ran"
 elif len(got) != nthreads * ncalls: bad = "ran-%d-of-%d" % (len(got), nthreads * ncalls)
 elif len(set((t, n) for t, n, _ in got)) != len(got): bad = "ran-twice"
@@ -389,6 +420,68 @@ print("STRESS " + bad)
 '''
 
 
+_STRESS2 = r'''
+import sys, threading, time, asyncio, os
+kind, ncalls = sys.argv[1], int(sys.argv[2])
+from twisted.logger import globalLogBeginner
+globalLogBeginner.beginLoggingTo([lambda e: None], redirectStandardIO=False, discardBuffer=True)
+from twisted.internet.selectreactor import SelectReactor
+started, info = threading.Event(), {}
+def worker_main():
+    if kind == "asyncio":
+        from twisted.internet.asyncioreactor import AsyncioSelectorReactor
+        loop = asyncio.new_event_loop(); asyncio.set_event_loop(loop)
+        w = AsyncioSelectorReactor(loop)
+    elif kind == "epoll":
+        from twisted.internet.epollreactor import EPollReactor
+        w = EPollReactor()
+    elif kind == "poll":
+        from twisted.internet.pollreactor import PollReactor
+        w = PollReactor()
+    else:
+        w = SelectReactor()
+    info["reactor"], info["ident"] = w, threading.get_ident()
+    w.callWhenRunning(started.set)
+    w.run(installSignalHandlers=False)
+th = threading.Thread(target=worker_main, daemon=True); th.start()
+if not started.wait(10):
+    print("STRESS no-result:worker-did-not-start"); os._exit(0)
+worker = info["reactor"]
+time.sleep(0.3)                      # let the worker go idle in its poll call
+ran, done = [], threading.Event()
+def work(i, t0):
+    ran.append((i, threading.get_ident(), time.monotonic() - t0))
+    if i == ncalls - 1: done.set()
+main = SelectReactor()
+def hand_over():
+    for i in range(ncalls):
+        worker.callFromThread(work, i, time.monotonic())
+    poll(time.monotonic())
+def poll(since):
+    if done.is_set() or time.monotonic() - since > 3.0: main.stop()
+    else: main.callLater(0.05, poll, since)
+main.callWhenRunning(hand_over)
+main.run(installSignalHandlers=False)
+idx = [r[0] for r in ran]
+bad = "ok"
+if sorted(idx) != list(range(ncalls)): bad = "idle-call-never-ran" if len(idx) < ncalls else "ran-twice"
+elif idx != list(range(ncalls)): bad = "order-thread-0"
+elif any(r[1] != info["ident"] for r in ran): bad = "wrong-thread"
+print("STRESS " + bad); sys.stdout.flush(); os._exit(0)
+'''
+
+
+def _impl_stress2(case) -> str:
+    from harness.common import SRC
+    env = dict(os.environ, PYTHONPATH=SRC)
+    r = subprocess.run([sys.executable, "-c", _STRESS2, case["stress2"], str(case["calls"])], env=env,
+                       capture_output=True, text=True, timeout=60)
+    for line in r.stdout.splitlines():
+        if line.startswith("STRESS "):
+            return "stress " + line[7:]
+    return "stress no-result:" + (r.stderr.strip().splitlines() or ["?"])[-1][:80].replace('"', "'")
+
+
 def _impl_stress(case) -> str:
     from harness.common import SRC
     env = dict(os.environ, PYTHONPATH=SRC)
@@ -401,6 +494,8 @@ def _impl_stress(case) -> str:
 
 
 def impl(case) -> str:
+    if "stress2" in case:
+        return _impl_stress2(case)
     if "stress" in case:
         return _impl_stress(case)
     return _impl_sched(case)
@@ -410,6 +505,12 @@ def impl(case) -> str:
 
 
 def oracle(case, obs):
+    if "stress2" in case:
+        if obs != "stress ok":
+            return Failure(case, f"{case['stress2']} reactor idle in a secondary thread, {case['calls']} calls handed "
+                           f"over from code running inside another reactor: {obs}",
+                           "two-reactors-" + obs.split(" ", 1)[1].split(":")[0])
+        return None
     if "stress" in case:
         if obs != "stress ok":
             return Failure(case, f"{case['stress']} reactor, {case['threads']} threads x {case['calls']} calls: {obs}",
@@ -499,10 +600,18 @@ def gen(rng, tier):
             else:
                 sched.append(rng.randrange(n + (1 if rng.random() < 0.05 else 0)))
         case = {"wants": wants, "sched": sched}
+        if rng.random() < 0.3:
+            case["kw"] = [[t, k, rng.choice(["delay", "callable", "delay"])] for t in range(n)
+                          for k in range(wants[t]) if rng.random() < 0.3]
+        if rng.random() < 0.3:
+            case["cancels"] = [[t, k] for t in range(n) for k in range(wants[t]) if rng.random() < 0.3]
         if rng.random() < 0.5:
             p = rng.choice([0.15, 0.4, 1.0])
             case["raises"] = [[t, k] for t in range(n) for k in range(wants[t]) if rng.random() < p]
         cases.append(case)
+    # a reactor idling in another thread, calls handed over from inside a second reactor
+    for kind in ("asyncio", "epoll", "select"):
+        cases.append({"stress2": kind, "calls": 5})
     # supporting stress on the real reactors
     for kind in ("select", "poll", "epoll", "asyncio"):
         if tier == "quick":
@@ -521,6 +630,10 @@ def corpus():
         {"wants": [3], "sched": [0, 0, "R", "R", 0, "R", 0, "R", "R", "R", "R", "R", "R", "R", "R", "R", "R", "R", "R"]},
         # spurious poll return
         {"wants": [1, 1], "sched": ["R", "R", "u", "R", 0, 1, "R", "R", "R", 1, 0, "R", "R", "R", "R", "R", "R"]},
+        # a call issued with a keyword argument called `delay`, between two ordinary ones
+        {"wants": [3], "sched": [0, 0, 0, 0, 0, 0] + ["R"] * 14, "kw": [[0, 1, "delay"]]},
+        # a house-keeping call that cancels every pending timer, queued together with two ordinary calls
+        {"wants": [3], "sched": [0, 0, 0, 0, 0, 0] + ["R"] * 14, "cancels": [[0, 0]]},
         # a call that raises, alone in its batch: it ran once and is removed from the queue
         {"wants": [1], "sched": [0, 0] + ["R"] * 14, "raises": [[0, 0]]},
         # raising calls first and last in a batch of three, one more call appended while the batch runs
@@ -529,14 +642,14 @@ def corpus():
 
 
 def to_coq(case):
-    if "stress" in case:
+    if "stress" in case or "stress2" in case:
         return None
     lab = lambda x: "Reactor" if x == "R" else "Spurious" if x == "u" else f"Prod {x}"
     return f"({coq_list([coq_nat(k) for k in case['wants']], 'nat')}, {coq_list([lab(x) for x in case['sched']], 'label')})"
 
 
 def shrink(case):
-    if "stress" in case:
+    if "stress" in case or "stress2" in case:
         return
     s = case["sched"]
     for i in range(len(s)):
@@ -559,7 +672,8 @@ SPEC = Spec(
     to_coq=to_coq,
     model_equal=lambda c, a, b: a.partition(" #")[0].replace("!", "") == b,
     nontrivial=lambda c, o: "x" in o or o == "stress ok",
-    histogram=lambda c, o: ("stress " + c["stress"]) if "stress" in c else f"{len(c['wants'])} producer(s)",
+    histogram=lambda c, o: ("stress " + c["stress"]) if "stress" in c else ("two reactors " + c["stress2"])
+    if "stress2" in c else f"{len(c['wants'])} producer(s)",
     rule="scheduled traces: every interleaving of one producer's 2/4 (thorough 6) atomic steps with the first 9/7 "
          "(12/10/7) reactor steps, every interleaving of two producers' steps with a reactor that is in the middle of "
          "a batch, and random schedules of 10-90 steps over 1-4 producers x 0-4 calls with spurious poll returns; each "
